@@ -196,7 +196,7 @@ func freePorts() ports {
 	var ls []net.Listener
 	get := func() int {
 		for try := 0; try < 200; try++ {
-			port := 10000 + portRng.Intn(22000)
+			port := 10000 + portRng.Intn(22000) // (C08's real-socket scenarios stay below 10000)
 			l, err := net.Listen("tcp", fmt.Sprintf("127.0.0.1:%d", port))
 			if err != nil {
 				continue
